@@ -88,13 +88,20 @@ func fitsMicro(v int64) bool { return v <= math.MaxInt64/1000 && v >= math.MinIn
 
 // buildSample: f is in DOCUMENTED column order (interval_real, connect, send, latency, receive,
 // interval_event, size_out, size_in, net_code, proto_code). via=api uses the public setter that documents
-// each column; via=raw writes array index i.
+// each column; via=raw writes array index i; via=sparse is what a gun does that only knows some of the values:
+// the sample comes from Acquire (the pool of released samples) and a setter is called only for the non-zero
+// values (no SetID for id 0) — everything else must read as zero.
 func buildSample(ns int64, tag string, sid uint64, f [10]int64, via string) *netsample.Sample {
 	s := netsample.Acquire(tag)
-	s.SetID(sid)
+	if via != "sparse" || sid != 0 {
+		s.SetID(sid)
+	}
 	raw := func(i int, v int64) { rawField(s, "fields").Index(i).SetInt(v) }
 	for i, v := range f {
-		if via != "api" {
+		if via == "sparse" && v == 0 {
+			continue
+		}
+		if via != "api" && via != "sparse" {
 			raw(i, v)
 			continue
 		}
